@@ -21,7 +21,8 @@ Judge(L) ==
   LET c == CellOf(L.pt) IN
   IF L.outcome # "OK" THEN "outcome_" \o L.outcome
   ELSE IF L.nf # c.nf THEN "nf"
-  ELSE IF \E i \in 1..13 : L.row[i] # TextbookLO(c, PidSeq[i]) THEN "row_differs_from_parton_model"
+  ELSE IF \E i \in 1..13 : L.row[i] # (LET w == [p \in Pids |-> TextbookLO(c, p)] IN
+                                        IF L.pt.tza = 1 THEN w ELSE Rotate(w, One, RI(L.pt.tza)))[PidSeq[i]] THEN "row_differs_from_parton_model"
   ELSE IF L.offnode_milli > 1000 THEN "not_kronecker_delta"
   ELSE IF L.shape_milli > 1000 THEN "operator_off_the_nodes_is_not_weight_times_basis_function"
   ELSE "ok"
